@@ -10,6 +10,8 @@ Streams:
   B-hc     the same for every class variant with each hard criterion (conj, xi_max, mpc_lim, mpd_lim, and cov_max with
            calc_unc for SSIcov cov_mm) set at a quantile of the unfiltered values so that it rejects some poles: the labels
            must be the label function of the RETURNED tables, and no returned NaN cell may be labelled stable.
+           Every sc / hc dict of the class-level streams is passed with its keys in a random order and three clearly
+           different tolerances (small / medium / large, assignment permuted), and judged by key.
 Oracle: the property text written in NumPy floats (independent of the model), run on every input of every stream.
 """
 import glob
@@ -503,6 +505,25 @@ def synth(nrng, N, l, fs, nmodes):
     return y
 
 
+def shuffled(rng, d):
+    """The same dict with its keys inserted in a random order (the run must read sc / hc by key, never by position)."""
+    keys = list(d.keys())
+    rng.shuffle(keys)
+    return {k: d[k] for k in keys}
+
+
+def pick_sc(rng, is_p):
+    """Three clearly different tolerances - small, medium, large - so that any mis-pairing of the three changes labels;
+    half of the cases use the usual assignment (frequency small, damping large, shape medium), the others a random one."""
+    small = rng.choice([0.02, 0.05] if is_p else [0.01, 0.02, 0.03])
+    medium = rng.choice([0.1, 0.15, 0.2])
+    large = rng.choice([0.6, 0.8, 1.0])
+    vals = [small, large, medium]
+    if rng.random() < 0.5:
+        rng.shuffle(vals)
+    return dict(err_fn=vals[0], err_xi=vals[1], err_phi=vals[2])
+
+
 def run_class(kind, data, fs, params):
     """kind in SSIcov SSIdat pLSCF SSIcov_MS SSIdat_MS pLSCF_MS ; returns result object"""
     from pyoma2 import algorithms as A
@@ -521,8 +542,12 @@ def run_class(kind, data, fs, params):
     return alg.result
 
 
-def class_case(ctx, kind, data, fs, params, exprs, meta, label, store_data=False, evaluate=True):
-    """Run one class, queue the model evaluation of its result tables; returns result.Lab (None when unusable)."""
+def class_case(ctx, kind, data, fs, params, exprs, meta, label, store_data=False, evaluate=True, shuffle=True):
+    """Run one class, queue the model evaluation of its result tables; returns result.Lab (None when unusable).
+    The sc and hc dicts are handed to the class with their keys in a random order; the judge below uses its own copy by key."""
+    if shuffle:
+        params = dict(params, sc=shuffled(ctx.rng, params["sc"]), hc=shuffled(ctx.rng, params["hc"]))
+        ctx.hist("sc-key-order", ",".join(k[4:] for k in params["sc"]))
     is_p = kind.startswith("pLSCF")
     ordmin, ordmax = int(params.get("ordmin", 0)), int(params["ordmax"])
     sc = params["sc"]
@@ -589,10 +614,7 @@ def class_configs(ctx):
             else:
                 ordmax = rng.randint(4, 12) if quick else rng.choice([rng.randint(4, 14), rng.randint(15, 40)])
             ordmin = 0  # first pass; run() then places ordmin beside a column that holds stable poles
-            if is_p:
-                sc = dict(err_fn=rng.choice([0.02, 0.05, 0.1]), err_xi=rng.choice([0.2, 0.5, 1.0]), err_phi=rng.choice([0.05, 0.1, 0.3]))
-            else:
-                sc = dict(err_fn=rng.choice([0.01, 0.02, 0.05, 0.1]), err_xi=rng.choice([0.05, 0.2, 0.5, 1.0]), err_phi=rng.choice([0.03, 0.1, 0.3]))
+            sc = pick_sc(rng, is_p)
             hc = dict(conj=rng.random() < 0.7, xi_max=rng.choice([0.1, 0.2, 0.5]), mpc_lim=rng.choice([0.0, 0.5, 0.7]), mpd_lim=rng.choice([0.3, 0.6, 1.0]))
             if is_p:
                 params = dict(ordmax=ordmax, ordmin=ordmin, nxseg=rng.choice([128, 256]), method_SD=rng.choice(["per", "cor"]), sc=sc, hc=hc)
@@ -647,7 +669,7 @@ def bite_stream(ctx, exprs, meta):
             N = rng.choice([1500, 2000])
             nmodes = rng.randint(2, 3)
             ordmax = (rng.randint(5, 8) if is_p else rng.randint(6, 9)) if ctx.quick() else (rng.randint(5, 10) if is_p else rng.randint(6, 16))
-            sc = dict(err_fn=rng.choice([0.05, 0.1]), err_xi=rng.choice([0.5, 1.0]), err_phi=rng.choice([0.1, 0.3]))
+            sc = pick_sc(rng, is_p)
             base = dict(extra, ordmax=ordmax, ordmin=0, sc=sc)
             if is_p:
                 base["nxseg"] = 128
@@ -741,7 +763,16 @@ def run(ctx):
         name = os.path.basename(path)
         ctx.hist("stream", "corpus")
         if c["kind"] == "class":
-            Lab = class_case(ctx, c["cls"], c["data"], c["fs"], c["params"], exprs, meta, "corpus:" + name)
+            Lab = class_case(ctx, c["cls"], c["data"], c["fs"], c["params"], exprs, meta, "corpus:" + name, shuffle=False)
+            if Lab is not None and c.get("mispairing_must_differ"):
+                # keep the case discriminating: the tolerances taken in the stored key ORDER give other labels than taken by KEY
+                F, X, P = meta[-1][3], meta[-1][4], meta[-1][5]
+                pr = c["params"]
+                rngc = (max(pr.get("ordmin", 0) - 1, 0), pr["ordmax"] - 1) if c["cls"].startswith("pLSCF") else (pr.get("ordmin", 0), pr["ordmax"])
+                by_pos, _ = call_sc(gen, F.copy(), X.copy(), np.array(P), rngc[0], rngc[1], tuple(float(v) for v in pr["sc"].values()))
+                by_key, _ = call_sc(gen, F.copy(), X.copy(), np.array(P), rngc[0], rngc[1], (pr["sc"]["err_fn"], pr["sc"]["err_xi"], pr["sc"]["err_phi"]))
+                if by_pos is None or by_key is None or np.array_equal(by_pos, by_key):
+                    ctx.note("corpus case %s: tolerances taken by position no longer give labels different from tolerances taken by key" % name)
             if Lab is not None and c.get("open_hc") is not None:
                 # keep the case discriminating: with the criterion open some poles are stable that the stated criterion rejects
                 try:
